@@ -1,6 +1,7 @@
 """C15 - methods are reachable under exactly their registered names, private ones never."""
 from __future__ import annotations
 
+import enum
 import itertools
 import json
 
@@ -38,11 +39,42 @@ FLOORS = {'*': {'op:add': 300, 'op:add_named': 200, 'op:add_methods_fn': 100, 'o
                 'op:merge': 300, 'op:attach': 500, 'op:dadd': 100, 'op:dview': 50, 'three-level-merge': 20,
                 're-registration': 100, 'probe:registered-name': 2000, 'probe:near-miss': 5000, 'probe:private-member': 1000,
                 'dispatcher:sync': 300, 'dispatcher:async': 300, 'view:static-member': 100, 'view:inherited-member': 100,
-                'same-prefix-merge': 20, 'view:derived-view': 50, 'probe:underscore-name': 100}}
+                'same-prefix-merge': 20, 'view:derived-view': 50, 'probe:underscore-name': 100, 'name-given-as-str-subclass-object': 100,
+                'view:constructor-raises-KeyError': 50}}
 
 PREFIXES = [None, 'a', 'a.b']
 FN_NAMES = ['alpha', 'beta', 'alpha', '_gamma']          # fn 0 and fn 2 collide on purpose; an own name may start with '_'
 EXPLICIT = ['alpha', 'x.y', 'a', '_x', 'ns._y']
+
+
+class Names(str, enum.Enum):
+    """explicit names kept in a str-mixin enumeration: as a string such a member IS its value"""
+    PING = 'ping'
+    STATUS = 'sys.status'
+
+
+class StrSub(str):
+    """a str subclass whose textual renderings are not its value"""
+
+    def __str__(self):
+        return 'rendered-by-__str__'
+
+    def __repr__(self):
+        return 'rendered-by-__repr__'
+
+    def __format__(self, spec):
+        return 'rendered-by-__format__'
+
+
+NAME_OBJECTS = {'enum:ping': Names.PING, 'enum:status': Names.STATUS, 'strsub:sub.name': StrSub('sub.name')}
+
+
+def name_of(nm):
+    """(object handed to the library, the name it stands for)"""
+    if isinstance(nm, str) and nm in NAME_OBJECTS:
+        obj = NAME_OBJECTS[nm]
+        return obj, str.__str__(obj) if not isinstance(obj, enum.Enum) else obj.value
+    return nm, nm
 
 
 def make_fn(token, name, is_async):
@@ -121,12 +153,22 @@ def make_views(is_async):
         # a derived view registered later under the same names: it replaces the base view also for what it inherits unchanged
         def helper(self):
             return 'V2.helper'
-    return [V0, V1, V2]
+    class V3(pjrpc.server.ViewMixin):
+        # a registered view that cannot be built for this request (a key the context lacks): the name IS registered, so the
+        # answer is anything but "method not found"
+        def __init__(self):
+            super().__init__()
+            raise KeyError('db')
+
+        def km(self):
+            return 'V3.km'
+    return [V0, V1, V2, V3]
 
 
 VIEW_PUBLIC = [{'pm': 'V0.pm', 'alpha': 'V0.alpha', 'st': 'V0.st', 'cm': 'V0.cm', 'inherited': 'view:inherited', 'mixed': 'mix0:mixed'},
                {'pm': 'V1.pm', 'helper': 'mix1:helper', 'shelper': 'mix1:shelper'},
-               {'pm': 'V2.pm', 'helper': 'V2.helper', 'shelper': 'mix1:shelper'}]
+               {'pm': 'V2.pm', 'helper': 'V2.helper', 'shelper': 'mix1:shelper'},
+               {'km': 'registered-but-fails:-32603'}]
 VIEW_PRIVATE = ['_priv', '__dd__', 'data', 'names', '_hidden', '_mixpriv', 'helper_data', '__init__', '__methods__', '__class__', '__dict__', '__doc__']
 
 
@@ -170,10 +212,13 @@ def run_history(ctx, ops, is_async):
                 put(model[r], join(PREFIXES[r], FN_NAMES[f]), f'fn{f}')
             elif name == 'add_named':
                 _, r, f, nm = op
+                nm_obj, nm = name_of(nm)
+                if nm_obj is not nm:
+                    ctx.hit('name-given-as-str-subclass-object')
                 if step % 2:
-                    regs[r].add(name=nm)(fns[f])     # `@registry.add(name=...)`
+                    regs[r].add(name=nm_obj)(fns[f])     # `@registry.add(name=...)`
                 else:
-                    regs[r].add(fns[f], nm)
+                    regs[r].add(fns[f], nm_obj)
                 put(model[r], join(PREFIXES[r], nm), f'fn{f}')
             elif name == 'add_methods_fn':
                 _, r, f = op
@@ -200,6 +245,8 @@ def run_history(ctx, ops, is_async):
                     ctx.hit('view:inherited-member')
                 if v == 2:
                     ctx.hit('view:derived-view')
+                if v == 3:
+                    ctx.hit('view:constructor-raises-KeyError')
             elif name == 'merge':
                 _, t, s = op
                 regs[t].merge(regs[s])
@@ -280,6 +327,13 @@ def run_history(ctx, ops, is_async):
         except Exception as e:
             ctx.violation(f'dispatch-raises:{type(e).__name__}', 'probe', cls, method=n, exception=e, **wit)
             return
+        if isinstance(dmodel[n], str) and dmodel[n].startswith('registered-but-fails:'):
+            code = doc.get('error', {}).get('code')
+            if code != -32603:
+                ctx.violation('registered-name-not-reachable' if code == -32601 else 'failing-view-answered-unexpectedly', 'probe', cls,
+                              method=n, expected_code=-32603, got=doc, **wit)
+                return
+            continue
         if doc.get('result') != dmodel[n]:
             got = doc.get('result', doc.get('error', {}).get('code'))
             mech = 'registered-name-not-reachable' if 'error' in doc else 'name-reaches-another-target'
@@ -309,9 +363,13 @@ def alphabet(reduced):
         ops.append(['add_named', r, 1, 'x.y'])
         ops.append(['add', r, 3])
         ops.append(['view', r, 2, 'v'])
+        ops.append(['view', r, 3, 'k'])
         if not reduced:
             ops.append(['add_named', r, 1, '_x'])
             ops.append(['add_named', r, 0, 'ns._y'])
+            ops.append(['add_named', r, 1, 'enum:ping'])
+            ops.append(['add_named', r, 2, 'enum:status'])
+            ops.append(['add_named', r, 0, 'strsub:sub.name'])
             ops.append(['add_named', r, 0, 'alpha'])
             ops.append(['add_named', r, 2, 'a'])
             ops.append(['add_methods_fn', r, 1])
